@@ -4,7 +4,7 @@
     what the implementation returned, the conclusion below — the statement of C01 for that
     input — holds over the reals. *)
 From Coq Require Import QArith Qreals Reals List.
-From D3 Require Import Base.Ops Base.Vec Base.RVec Spec.Convex Checker.Shapes Checker.Narrow Model.Simplex Model.JoltLoop Proofs.JoltLoop Proofs.JoltStall Proofs.JoltStallEx Proofs.JoltAffine.
+From D3 Require Import Base.Ops Base.Vec Base.RVec Spec.Convex Checker.Shapes Checker.Narrow Model.Simplex Model.JoltLoop Proofs.JoltLoop Proofs.JoltStall Proofs.JoltStallEx Proofs.JoltAffine Proofs.JoltAffine2.
 Import ListNotations.
 
 (** the support-value bound every separation certificate rests on *)
@@ -140,6 +140,22 @@ Example C01_closest_points_feasible_nonvacuous :
   (forall ws, closest_weights fxY = Some ws -> Forall (fun w => (0 <= w)%R) ws).
 Proof. exact closest_points_feasible_nonvacuous_ex. Qed.
 
+(** two live rows: FULL feasibility, no hypothesis about the solver - when [closest_point_line] keeps both
+    rows (its interior arm, set = 3) the recomputed weights are the same and positive, so for convex
+    colliders a lies in A, b in B and a - b in the segment of the two rows *)
+Theorem C01_closest_points_feasible_two_rows : forall (A B : set3) y0 y1 p0 p1 q0 q1 v a b,
+  convex A -> convex B -> rows A B [y0; y1] [p0; p1] [q0; q1] ->
+  closest_point_line y0 y1 = (v, 3%N) ->
+  calculate_closest_points [y0; y1] [p0; p1] [q0; q1] = Some (a, b) ->
+  A a /\ B b /\ conv_hull [y0; y1] (vsub a b).
+Proof. exact closest_points_feasible_two_rows. Qed.
+
+Example C01_closest_points_feasible_two_rows_nonvacuous :
+  convex fxA /\ convex fxB /\ rows fxA fxB fxY fxP fxQ /\
+  (exists v, closest_point_line fxy0 fxy1 = (v, 3%N)) /\
+  (exists a b, calculate_closest_points fxY fxP fxQ = Some (a, b)).
+Proof. exact closest_points_feasible_two_rows_nonvacuous. Qed.
+
 (** the hypotheses of [C01_exact_on_stall_partial] are satisfiable TOGETHER: the state of the loop
     model after its first iteration on A = {(2,0,0)}, B = {(0,0,0)} meets all eight of them (the second
     support point repeats the first, the solver reports no improvement), and the reported distance is 2 *)
@@ -178,3 +194,5 @@ Print Assumptions C01_exact_on_stall_nonvacuous.
 Print Assumptions C01_closest_points_affine.
 Print Assumptions C01_closest_points_feasible_partial.
 Print Assumptions C01_closest_points_feasible_nonvacuous.
+Print Assumptions C01_closest_points_feasible_two_rows.
+Print Assumptions C01_closest_points_feasible_two_rows_nonvacuous.
